@@ -29,7 +29,7 @@ are assumed to succeed: templates containing them are exception classes (`D17_fm
 Both are validated against the real operators on every run (stream `spec`).
 The exception-class predicates `D17_*` live at the end of this file.
 -/
-namespace Pya
+namespace Pya.C17
 
 /-! ## `%` — tokeniser -/
 
@@ -438,11 +438,6 @@ def checkedPairs (ss : List CSpec) (a : Arg) : List (CSpec × Elem) :=
       (ser.zip a.allArgs).filterMap fun (s, e) => match s with | .cs c => some (c, e) | .star => none
     else []
 
-/-- `'%x' % 1.5`: `%o/%x/%X` applied to a float — accepted by `Numeric`, TypeError in CPython. -/
-def D17_hexFloat (t : List Char) (a : Arg) : Bool :=
-  (checkedPairs (specsOf (scan t)) a).any fun (s, e) =>
-    (s.conv == 'o' || s.conv == 'x' || s.conv == 'X') && e == .sc .float
-
 /-- `'%c' % 300`: str template, `%c`, int in `range(256, 0x110000)` — reported, CPython accepts. -/
 def D17_cRangeStr (isBytes : Bool) (t : List Char) (a : Arg) : Bool :=
   !isBytes && (checkedPairs (specsOf (scan t)) a).any fun (s, e) =>
@@ -460,11 +455,6 @@ def D17_nonStrKey (isBytes : Bool) (t : List Char) (a : Arg) : Bool :=
      | .dict kvs => hasNonLiteralKey kvs
      | _ => false)
 
-/-- `'%s %(a)s' % {'a': 1}`: `', '.join(keys_left)` with `None` among the keys → internal error,
-result type `Any[error]`. -/
-def D17_mixedKeyCrash (isBytes : Bool) (t : List Char) (a : Arg) : Bool :=
-  (pyaPercent isBytes t a).crash
-
 /-- `'%%' % {'a': 1}`: only `%%` specifiers and a non-tuple argument that CPython treats as a
 mapping (no "not all arguments converted" check) → "too many arguments". -/
 def D17_pctOnlyMapping (isBytes : Bool) (t : List Char) (a : Arg) : Bool :=
@@ -481,4 +471,4 @@ def D17_fmtPath (t : List Char) : Bool := (parseFormat t).1.any (·.path > 0)
 depth, brace counting inside specs are not checked). -/
 def D17_fmtSpec (t : List Char) : Bool := (parseFormat t).1.any (·.hasSpec)
 
-end Pya
+end Pya.C17
